@@ -433,6 +433,7 @@ func main() {
 			"the connection-close decision is judged on the restricted forms only (HTTP/1.0 without keep-alive, 'Connection: close'); token lists are C07's subject",
 			"independent client parser: net/http ReadResponse",
 		},
-		Build: build, QuickBudget: 25 * time.Second, ThoroughBudget: 15 * time.Minute, MinNonTrivial: 50,
+		UsesSimulatedKernel: true,
+		Build:               build, QuickBudget: 25 * time.Second, ThoroughBudget: 15 * time.Minute, MinNonTrivial: 50,
 	})
 }
